@@ -41,6 +41,7 @@ func (in *Interp) mkStringSlice(ss []string) Slice {
 
 func registerHost(in *Interp) {
 	H := in.Host
+	defer registerConc(in)
 	opaqueStr := func(tag string) HostFn {
 		return func(in *Interp, a []Value, _ ssa.CallInstruction) Value { return "<" + tag + "@" + in.where() + ">" }
 	}
@@ -88,6 +89,47 @@ func registerHost(in *Interp) {
 		return here
 	}
 	H["errors.Is"] = func(in *Interp, a []Value, _ ssa.CallInstruction) Value { return errIs(in, a[0], a[1], 0) }
+	// errors.As: the first error of the %w chain whose dynamic type fits the target
+	H["errors.As"] = func(in *Interp, a []Value, _ ssa.CallInstruction) Value {
+		tgt, ok := a[1].(Iface)
+		if !ok || tgt.T == nil {
+			in.goPanic("errors: target cannot be nil")
+		}
+		pt, ok := tgt.T.(*types.Pointer)
+		p, ok2 := tgt.V.(Ptr)
+		if !ok || !ok2 || p.C == nil {
+			in.goPanic("errors: target must be a non-nil pointer")
+		}
+		want := pt.Elem()
+		cur := a[0]
+		for depth := 0; depth < 16; depth++ {
+			e, ok := cur.(Iface)
+			if !ok || e.T == nil {
+				break
+			}
+			fits := types.AssignableTo(e.T, want)
+			if it, isIface := want.Underlying().(*types.Interface); isIface && !fits {
+				fits = types.Implements(e.T, it)
+			}
+			if _, opaque := e.V.(*ErrObj); opaque && !types.Identical(want, types.Universe.Lookup("error").Type()) {
+				fits = false // an opaque error has no concrete type anybody could ask for
+			}
+			if fits {
+				if _, isIface := want.Underlying().(*types.Interface); isIface {
+					in.store(p.C, e)
+				} else {
+					in.store(p.C, e.V)
+				}
+				return in.B.True()
+			}
+			eo, isObj := e.V.(*ErrObj)
+			if !isObj || eo.Wrap == nil {
+				break
+			}
+			cur = eo.Wrap
+		}
+		return in.B.False()
+	}
 	H["errors.Unwrap"] = func(in *Interp, a []Value, _ ssa.CallInstruction) Value {
 		if e, ok := a[0].(Iface); ok && e.T != nil {
 			if eo, isObj := e.V.(*ErrObj); isObj && eo.Wrap != nil {
@@ -185,6 +227,21 @@ func registerHost(in *Interp) {
 							}
 							return in.B.Or(alts...)
 						}
+					}
+				}
+				// content strings (SMT String terms built by concatenation / prefix / substr)
+				isStr := func(v Value) bool {
+					x, ok := v.(*SymStr)
+					return ok && x.Str != nil && !x.Line && x.From == 0
+				}
+				if (isStr(a[0]) || ok1) && (isStr(a[1]) || ok2) && (isStr(a[0]) || isStr(a[1])) {
+					switch kind {
+					case "prefix":
+						return in.B.Raw("str.prefixof", sym.BoolSort, in.strTerm(a[1]), in.strTerm(a[0]))
+					case "suffix":
+						return in.B.Raw("str.suffixof", sym.BoolSort, in.strTerm(a[1]), in.strTerm(a[0]))
+					case "contains":
+						return in.B.Raw("str.contains", sym.BoolSort, in.strTerm(a[0]), in.strTerm(a[1]))
 					}
 				}
 				if l, isLine := a[0].(*SymStr); isLine && l.Line && ok2 {
@@ -492,10 +549,29 @@ func registerHost(in *Interp) {
 		return in.B.SLe(in.B.Const(in.WordBits, 0), procCode(in, a[0]))
 	}
 	H["(*os.ProcessState).String"] = opaqueStr("process state")
-	// captured output that is only ever formatted into messages
-	H["(*bytes.Buffer).String"] = opaqueStr("buffer")
-	H["(*bytes.Buffer).Bytes"] = func(in *Interp, a []Value, _ ssa.CallInstruction) Value {
-		return in.bytesOf("<buffer@" + in.where() + ">")
+	for _, fn := range []string{"HasPrefix", "HasSuffix", "Contains", "Equal"} {
+		fn := fn
+		H["bytes."+fn] = func(in *Interp, a []Value, site ssa.CallInstruction) Value {
+			toStr := func(v Value) Value {
+				sl := v.(Slice)
+				if ss := in.taggedString(sl); ss != nil {
+					return ss
+				}
+				if sl.Len < 0 {
+					in.unmodelled("bytes." + fn + " on an opaque buffer")
+				}
+				bs := make([]*sym.Term, 0, sl.Len)
+				for i := 0; i < sl.Len; i++ {
+					bs = append(bs, in.load(sl.Arr.Kids[sl.Off+i]).(*sym.Term))
+				}
+				return in.mkByteStr(bs)
+			}
+			x, y := toStr(a[0]), toStr(a[1])
+			if fn == "Equal" {
+				return in.eqValues(x, y)
+			}
+			return in.Host["strings."+fn](in, []Value{x, y}, site)
+		}
 	}
 	H["bytes.TrimSpace"] = func(in *Interp, a []Value, _ ssa.CallInstruction) Value { return a[0] }
 	H["(*os/exec.ExitError).Error"] = opaqueStr("exit error")
